@@ -27,6 +27,34 @@ CHECKS = {
    text='TLC checks ParseTriples(FmtTriples(ts)) = ts and agreement of all documented spacing variants on every small list (MC_Triples); recorded format_triples/parse_triples executions on corpus graphs and random lists (quoted targets with blanks, commas, parentheses, carets) are judged by TLC.',
    note='lists outside the notation (commas/carets in sources or roles) are not judged',
    technique='TLA+ triple-conjunction spec model-checked by TLC + TLC trace validation'),
+ 'C04': dict(engine='layout', design='5 C04, 4.5',
+   text='TLC checks the clauses of the documented reading (one instance triple per node, null concept first, one triple per branch in depth-first order, single deinversion only towards node variables and never under the no-op model, alignments never inside triples, marker counts) on every tree of a bounded instance under three models (MC_Interpret); the real interpret / alignments / role_alignments are run on the TLC-exported trees, corpus trees and random well- and ill-formed trees under five kinds of model, and TLC compares top, ordered triples, variables and alignment attachment with the reference reading.',
+   note='reference reading written from docs/notation.rst and docs/structures.rst; Push/POP placement is drift here (gates in C02/C14); model tables are data',
+   technique='TLA+ reference interpretation model-checked by TLC + TLC trace validation of recorded interpret results'),
+ 'C02': dict(engine='layout', design='5 C02, 4.5-4.6',
+   text='The configure algorithm is a PlusCal machine (MC_Configure, MODE=roundtrip): TLC checks on every well-formed tree of a bounded instance that running the machine on the reference reading never improvises and returns the normal form, plus termination; recorded configure(interpret(t)) and encode(decode(s)) of the real code on TLC-exported, corpus and random well-formed trees under five kinds of model are judged by TLC against Norm(t) (well-formedness is a specification predicate).',
+   note='normal form = drop an empty concept slot only; the machine models layout markers, alignments are covered by the trace judge only',
+   technique='PlusCal machine of configure model-checked by TLC + TLC trace validation of recorded round trips'),
+ 'C03': dict(engine='layout', design='5 C03, 4.6',
+   text='TLC checks on the PlusCal machine of configure (MC_Configure, MODE=corrupt) that for every bounded graph, triple order, marker assignment and top the result denotes the same graph or LayoutError is raised exactly when the graph is not connected, with termination; the real encode is run on random well-formed connected graphs in shuffled orders from every top with typed constants (0, 0.0, -1, None, strings) and on decoded graphs, and TLC judges the recorded tree, text, re-parse and re-decode with the postcondition EncodesTo.',
+   note='constants compared by written form; which layout is chosen is not judged; roles whose inversion the model defines (O1) and inexpressible constants are outside the precondition',
+   technique='PlusCal machine + postcondition operators model-checked by TLC + TLC trace validation of recorded encode/decode executions'),
+ 'C06': dict(engine='layout', design='5 C06, 4.6',
+   text='Same PlusCal machine: every insertion position x Push(a)/Push(b)/none x POP/none x top is explored by TLC with the invariant "LayoutError iff not connected, else same content", a bound on improvisation rounds and Termination; the real encode is run on decoded graphs under 1-5 marker/order edits and on arbitrary triple lists, and TLC judges success/failure precision, exception class and content.',
+   note='hangs detected by a 5 s timeout; Push markers naming non-variables and phantom explicit tops are not judged (O10, O11); only layout markers are corrupted, alignment markers stay with their triples',
+   technique='PlusCal machine model-checked by TLC (histories of marker edits) + TLC trace validation'),
+ 'C05': dict(engine='layout', design='5 C05, 4.7',
+   text='TLC checks that Rearrange is a per-node permutation, keeps the concept first, preserves the graph, is sorted by the key, stable on ties, orders numeric suffixes numerically and inverted roles last, and is idempotent, for every tree x key x attributes-first of a bounded instance (MC_Rearrange); recorded rearrange / reconfigure / encode-with-new-top executions on random and corpus inputs are judged by TLC (content, per-node bags, concept first, exact order for deterministic keys).',
+   note='ordering of aligned or non-ASCII roles not judged (O2); random key judged on content only',
+   technique='TLA+ spec of rearrange and sort keys model-checked by TLC + TLC trace validation'),
+ 'C14': dict(engine='layout', design='5 C14, 4.5, 4.7',
+   text='TLC checks on every tree of a bounded instance that replaying the markers of the reference reading (stack simulation) gives back the writing node of every triple, the pushed variable and the written-inverted flag (MC_Interpret: MarkersReplayWalk, PushedIsOpened, InvertedIffWritten); recorded node_contexts / get_pushed_variable / appears_inverted of the real code on decoded graphs and their marker-stripped copies are judged by TLC against the ghost variables of the walk.',
+   note='marker-less answers beyond "no exception, no pushed variable" are drift',
+   technique='TLA+ ghost-variable spec model-checked by TLC + TLC trace validation'),
+ 'C10': dict(engine='layout', design='5 C10, 4.10',
+   text='The naming loop of reset_variables is a TLA+ machine (MC_Relabel): TLC checks bijection, first-free-candidate choice, agreement with the functional plan, the pigeonhole progress measure and termination for every format with an index field; recorded reset_variables executions on corpus and random trees x formats are judged by TLC: the observed map is a bijection, applied at every definition and (aligned) reference and nowhere else, and interpretation commutes with renaming.',
+   note='F15 (formats without index field never return when two nodes format alike) is an open known finding, detected by a 1-2 s timeout and the specification predicate; exact prefix rule is drift',
+   technique='TLA+ machine of the naming loop model-checked by TLC + TLC trace validation'),
 }
 NOT_YET = 'check not built yet (build in progress, see DESIGN.md section 11)'
 
